@@ -104,7 +104,22 @@ def run(ctx) -> list[Inst]:
                     else:
                         detail = 'the error-count test does not dominate the return of the specification'
     construct = '(a) syntax errors make compile() fail'
-    if idiom:
+    # any other error handling present (a listener of the package, a raise after the parse)?
+    other_handling = False
+    for n in own_nodes(f.node):
+        if isinstance(n, ast.Call) and isinstance(n.func, ast.Attribute) and n.func.attr == 'addErrorListener':
+            other_handling = True
+        if isinstance(n, ast.Raise) and cfg.node_of(n) is not None and cfg.dominates(parse_node, cfg.node_of(n)):
+            other_handling = True
+        if isinstance(n, ast.Assign) and isinstance(n.targets[0], ast.Attribute) \
+                and n.targets[0].attr in ('_errHandler', 'errHandler'):
+            other_handling = True
+    if not idiom and other_handling:
+        insts.append(Inst(RULE, f.short, construct, 'unproven',
+                          msg=('error handling is present but matches none of the accepted idioms'
+                               + (f' ({detail})' if detail else '')),
+                          file=rel, line=parse_node.lineno, props=props))
+    elif idiom:
         insts.append(Inst(RULE, f.short, construct, 'ok', msg='idiom ' + idiom, file=rel,
                           line=parse_node.lineno, props=props))
     else:
